@@ -1445,6 +1445,11 @@ func (p *namePool) gen(r *vu.Rng, ill bool) string {
 			s = "."
 		}
 	}
+	// case variants: names that share a suffix with a pooled name only up to ASCII case
+	// (compression must treat them as different suffixes: decoded names keep their spelling)
+	if r.Chance(1, 4) {
+		s = flipCase(r, s)
+	}
 	if ill && r.Chance(1, 6) {
 		switch r.Intn(5) {
 		case 0:
@@ -1464,6 +1469,27 @@ func (p *namePool) gen(r *vu.Rng, ill bool) string {
 	}
 	p.names = append(p.names, s)
 	return s
+}
+
+// flipCase changes the case of the letters of some labels (whole labels, or single letters).
+func flipCase(r *vu.Rng, s string) string {
+	b := []byte(s)
+	mode := r.Intn(3) // 0 upper-case some labels, 1 flip single letters, 2 everything upper
+	flip := mode == 2 || r.Bool()
+	for i, c := range b {
+		if c == '.' {
+			flip = mode == 2 || r.Bool()
+			continue
+		}
+		letter := 'a' <= c && c <= 'z' || 'A' <= c && c <= 'Z'
+		if !letter {
+			continue
+		}
+		if mode == 1 && r.Chance(1, 3) || mode != 1 && flip {
+			b[i] = c ^ 0x20
+		}
+	}
+	return string(b)
 }
 
 func hexS(s string) string { return vu.Hex([]byte(s)) }
